@@ -72,7 +72,7 @@ def check_matrix_vs_ref(ctx, fname, s1, s2, kw, psi_neg, keep, d, M, label="C04"
     bound = inf
     if m is not None:
         bound = inn.ival(m) if keep else m
-    if kw.get("use_pruning"):
+    if kw.get("use_pruning") and dtwmon.valid_ub_domain(kw, r, c):      # elsewhere the engines must not prune
         ub = oracle.ref_ed(l1, l2, inn.dist, (lambda x: x) if keep else inn.result)
         bound = min(bound, ub)
     ncells = 0
@@ -132,7 +132,7 @@ def compare_matrices(ctx, fname, s1, s2, kw, psi_neg, keep, dC, MC, dP, MP, labe
     bound = inf
     if m is not None:
         bound = inn.ival(m) if keep else m
-    if kw.get("use_pruning"):
+    if kw.get("use_pruning") and dtwmon.valid_ub_domain(kw, r, c):      # elsewhere the engines must not prune
         ub = oracle.ref_ed(l1, l2, inn.dist, (lambda x: x) if keep else inn.result)
         bound = min(bound, ub)
     for i in range(1, r + 1):
